@@ -126,6 +126,16 @@ class Translator(object):
                 return self.NARROW_UNSIGNED[v]
         return None
 
+    def is_known_struct(self, qt):
+        """a capitalised type name is a struct only if the contracts declare a class of that name (enum typedefs such as
+        GIInfoType are plain integers)"""
+        from .model import _lookup_class
+        try:
+            _lookup_class(qt.replace('struct ', ''))
+            return True
+        except EngineError:
+            return False
+
     def qualtype(self, n):
         return n.get('type', {}).get('qualType', '')
 
@@ -458,7 +468,7 @@ class Translator(object):
                 self.locals.add(nm)
                 init = [c for c in d.get('inner', []) if isinstance(c, dict) and c.get('kind') not in ('FullComment',)]
                 qt = d.get('type', {}).get('qualType', '')
-                if re.match(r'^(?:struct\s+)?[A-Z]\w*$', qt) and qt not in ('GType', 'GQuark') and not init:
+                if re.match(r'^(?:struct\s+)?[A-Z]\w*$', qt) and qt not in ('GType', 'GQuark') and not init and self.is_known_struct(qt):
                     # a local struct variable: an object; &var is the object itself
                     self.cells.discard(nm)
                     self.struct_locals.add(nm)
